@@ -9,6 +9,8 @@ package c10
 //
 //   - a reload of the unchanged file (run()'s reloadNow = SIGHUP / --watch),
 //   - a reload after an unrelated edit (a comment appended; a route appended LAST),
+//   - a reload after the file was rewritten with the routes in the opposite order (documented live-reloadable; the
+//     reference then resolves on the new order, iff the gateway reports the reload as applied),
 //   - a reload the documentation calls restart-required (a deliver route appended: "the previous config stays active"),
 //   - a management mutation through the Admin API handler wired by startServers that labels / unlabels ONE route
 //     (PUT / DELETE /applications/{application}/endpoints/{endpoint_name}: parse -> label -> Format -> write -> reload).
@@ -179,10 +181,11 @@ const (
 	hoAppendDeliver
 	hoLabel
 	hoUnlabel
+	hoReverse
 	nHfOp
 )
 
-var hfOpNames = []string{"reload", "comment-edit-reload", "append-pull-route-reload", "append-deliver-route-reload", "label", "unlabel"}
+var hfOpNames = []string{"reload", "comment-edit-reload", "append-pull-route-reload", "append-deliver-route-reload", "label", "unlabel", "reverse-route-order-reload"}
 
 type hfOp struct {
 	Kind  int `json:"kind"`
@@ -226,6 +229,8 @@ type hfStats struct {
 // hfLive: one booted gateway plus the harness's own record of what it wrote and what the gateway reported as applied.
 type hfLive struct {
 	b       *booted
+	slot    int64     // names the listen addresses of this boot
+	orig    []hfRoute // the configuration as written at boot (label(i) names its i-th route)
 	file    []hfRoute // routes of the file in the order the harness wrote / appended them
 	running []hfRoute // routes of the last configuration the gateway reported as applied
 	edits   int
@@ -233,7 +238,8 @@ type hfLive struct {
 }
 
 func hfBoot(routes []hfRoute, slot int) (*hfLive, string, error) {
-	dsl := hfDSL(routes, bootSeq.Add(1))
+	addr := bootSeq.Add(1)
+	dsl := hfDSL(routes, addr)
 	b, err := boot(dsl, slot)
 	if err != nil {
 		return nil, dsl, err
@@ -242,7 +248,7 @@ func hfBoot(routes []hfRoute, slot int) (*hfLive, string, error) {
 		b.a.Shutdown()
 		return nil, dsl, fmt.Errorf("no admin handler")
 	}
-	l := &hfLive{b: b, file: append([]hfRoute(nil), routes...), running: append([]hfRoute(nil), routes...)}
+	l := &hfLive{b: b, slot: addr, orig: append([]hfRoute(nil), routes...), file: append([]hfRoute(nil), routes...), running: append([]hfRoute(nil), routes...)}
 	return l, dsl, nil
 }
 
@@ -307,13 +313,24 @@ func (l *hfLive) apply(op hfOp, st *hfStats) (applicable bool, err error) {
 		}
 		l.file = append(l.file, rt)
 		l.reload(st)
+	case hoReverse:
+		// the operator rewrites the file with the routes in the opposite order (documented live-reloadable: "reorder routes")
+		rev := make([]hfRoute, len(l.file))
+		for i, rt := range l.file {
+			rev[len(rev)-1-i] = rt
+		}
+		if err := os.WriteFile(l.b.a.ConfigPath, []byte(hfDSL(rev, l.slot)), 0o644); err != nil {
+			return true, err
+		}
+		l.file = rev
+		l.reload(st)
 	case hoLabel, hoUnlabel:
 		method, body := http.MethodPut, ""
 		if op.Kind == hoLabel {
-			if op.Route >= len(l.file) {
+			if op.Route >= len(l.orig) {
 				return false, nil
 			}
-			body = fmt.Sprintf(`{"route":%q}`, routePaths[l.file[op.Route].Path])
+			body = fmt.Sprintf(`{"route":%q}`, routePaths[l.orig[op.Route].Path])
 		} else {
 			method = http.MethodDelete
 		}
@@ -365,6 +382,26 @@ func hfExpect(running []hfRoute, specs []routeSpec, q reqSpec, m *memo) expectat
 		e.Route, e.Target = routePaths[running[w].Path], running[w].target()
 	}
 	return e
+}
+
+// hfRequests: the main family's request table for the configuration. PUT is left out when no route of the
+// configuration carries a method criterion (it is then answered exactly like GET: 405 or 404).
+func hfRequests(routes []hfRoute) []reqSpec {
+	methods := false
+	for _, rt := range routes {
+		methods = methods || len(shapeCriteria[rt.Match].methods) > 0
+	}
+	all := requestsFor(hfDims(routes))
+	if methods {
+		return all
+	}
+	out := all[:0:0]
+	for _, q := range all {
+		if reqMethods[q.Method] != "PUT" {
+			out = append(out, q)
+		}
+	}
+	return out
 }
 
 func hfDims(routes []hfRoute) int {
@@ -471,9 +508,10 @@ func hfBaseSeqs(n int) [][]hfOp {
 		opsOf(op(hoReload), op(hoReload), op(hoComment)),
 		opsOf(op(hoComment), op(hoAppendPull), op(hoReload)),
 		opsOf(op(hoAppendDeliver), op(hoReload)),
+		opsOf(op(hoReverse), op(hoReload), op(hoReverse)),
 	}
 	for i := 0; i < n; i++ {
-		seqs = append(seqs, opsOf(opLabel(i), op(hoReload), op(hoUnlabel), op(hoReload)))
+		seqs = append(seqs, opsOf(opLabel(i), op(hoReload), op(hoUnlabel)))
 	}
 	return seqs
 }
@@ -495,7 +533,7 @@ func hfMoreSeqs(n int) [][]hfOp {
 
 // hfAllSeqs: every sequence of exactly depth operations over the whole operation alphabet.
 func hfAllSeqs(n, depth int) [][]hfOp {
-	alpha := []hfOp{op(hoReload), op(hoComment), op(hoAppendPull), op(hoAppendDeliver), op(hoUnlabel)}
+	alpha := []hfOp{op(hoReload), op(hoComment), op(hoAppendPull), op(hoAppendDeliver), op(hoUnlabel), op(hoReverse)}
 	for i := 0; i < n; i++ {
 		alpha = append(alpha, opLabel(i))
 	}
@@ -627,10 +665,21 @@ type hfFailure struct {
 	o             observation
 }
 
+// hfClass: (operations since boot | last operation + channel/target tuple, part, reference status, winner position)
+type hfClass struct {
+	ops, part string
+	status    int16
+	winner    int8
+}
+
+func (k hfClass) String() string {
+	return fmt.Sprintf("history|%s|%s|%d|winner=%d", k.ops, k.part, k.status, k.winner)
+}
+
 type hfResult struct {
 	evals, configs, boots, tables, n202, n404, n405, ops, skipped int64
 	st                                                            hfStats
-	classes                                                       map[string]struct{}
+	classes                                                       map[hfClass]struct{}
 	failures                                                      []hfFailure
 	infra                                                         []string
 	cut                                                           bool
@@ -650,7 +699,7 @@ func hfTable(l *hfLive, reqs []reqSpec, raws []string, m *memo, onCase func(qi i
 }
 
 func hfRunConfig(res *hfResult, ci int, c hfCfg, m *memo, slot int, rawCache map[reqSpec]string) {
-	reqs := requestsFor(hfDims(c.Routes))
+	reqs := hfRequests(c.Routes)
 	raws := make([]string, len(reqs))
 	for i, q := range reqs {
 		raw, ok := rawCache[q]
@@ -708,9 +757,9 @@ func hfRunConfig(res *hfResult, ci int, c hfCfg, m *memo, slot int, rawCache map
 				default:
 					res.n405++
 				}
-				res.classes[fmt.Sprintf("history|%s|%s|%d|winner=%d", opsKey, c.Part, e.Status, e.Winner)] = struct{}{}
+				res.classes[hfClass{opsKey, c.Part, int16(e.Status), int8(e.Winner)}] = struct{}{}
 				if k > 0 {
-					res.classes[fmt.Sprintf("history-chan|%s|%s|%d|winner=%d", hfOpNames[seq[k-1].Kind], chans, e.Status, e.Winner)] = struct{}{}
+					res.classes[hfClass{"last=" + hfOpNames[seq[k-1].Kind], chans, int16(e.Status), int8(e.Winner)}] = struct{}{}
 				}
 				if !sameOutcome(e, o) {
 					res.failures = append(res.failures, hfFailure{ci, si, k, qi, e, o})
@@ -794,7 +843,7 @@ func runHistoryFamily(r *runner.Run, m *memo, deadline time.Time) bool {
 	results := make([]*hfResult, workers)
 	var wg sync.WaitGroup
 	for w := 0; w < workers; w++ {
-		res := &hfResult{classes: map[string]struct{}{}}
+		res := &hfResult{classes: map[hfClass]struct{}{}}
 		results[w] = res
 		wg.Add(1)
 		go func(w int) {
@@ -852,7 +901,7 @@ func runHistoryFamily(r *runner.Run, m *memo, deadline time.Time) bool {
 		r.Add("ref_nomatch_404", res.n404)
 		r.Add("ref_nomatch_405", res.n405)
 		for k := range res.classes {
-			r.Distinct(k)
+			r.Distinct(k.String())
 		}
 		fails = append(fails, res.failures...)
 		tot.configs += res.configs
@@ -892,7 +941,7 @@ func runHistoryFamily(r *runner.Run, m *memo, deadline time.Time) bool {
 		if explained {
 			continue
 		}
-		reqs := requestsFor(hfDims(c.Routes))
+		reqs := hfRequests(c.Routes)
 		q := reqs[f.qi]
 		// the file the harness wrote plus what it appended (for the channel of a route that was reached)
 		file := append([]hfRoute(nil), c.Routes...)
